@@ -568,34 +568,60 @@ func (l *Linter) lintReturnStatement(stmt *ast.ReturnStatement, ctx *context.Con
 	// https://developer.fastly.com/learning/vcl/using/#the-vcl-request-lifecycle
 	expects := make([]string, 0, 3)
 
-	switch ctx.Mode() {
-	case context.RECV:
-		// https://developer.fastly.com/reference/vcl/subroutines/recv/
-		expects = append(expects, "lookup", "pass", "error", "restart")
-	case context.HASH:
-		// https://developer.fastly.com/reference/vcl/subroutines/hash/
-		expects = append(expects, "hash")
-	case context.HIT:
-		// https://developer.fastly.com/reference/vcl/subroutines/hit/
-		expects = append(expects, "deliver", "pass", "error", "restart")
-	case context.MISS:
-		// https://developer.fastly.com/reference/vcl/subroutines/miss/
-		expects = append(expects, "fetch", "deliver_stale", "pass", "error")
-	case context.PASS:
-		// https://developer.fastly.com/reference/vcl/subroutines/pass/
-		expects = append(expects, "pass")
-	case context.FETCH:
-		// https://developer.fastly.com/reference/vcl/subroutines/fetch/
-		expects = append(expects, "deliver", "deliver_stale", "hit_for_pass", "pass", "error", "restart")
-	case context.ERROR:
-		// https://developer.fastly.com/reference/vcl/subroutines/error/
-		expects = append(expects, "deliver", "deliver_stale", "restart")
-	case context.DELIVER:
-		// https://developer.fastly.com/reference/vcl/subroutines/deliver/
-		expects = append(expects, "deliver", "restart")
-	case context.LOG:
-		// https://developer.fastly.com/reference/vcl/subroutines/log/
-		expects = append(expects, "deliver")
+	// A subroutine may run in several scopes: an action is legal when every one of them allows it.
+	first := true
+	for _, scope := range []int{
+		context.RECV, context.HASH, context.HIT, context.MISS, context.PASS,
+		context.FETCH, context.ERROR, context.DELIVER, context.LOG,
+	} {
+		if ctx.Mode()&scope == 0 {
+			continue
+		}
+		var states []string
+		switch scope {
+		case context.RECV:
+			// https://developer.fastly.com/reference/vcl/subroutines/recv/
+			states = []string{"lookup", "pass", "error", "restart"}
+		case context.HASH:
+			// https://developer.fastly.com/reference/vcl/subroutines/hash/
+			states = []string{"hash"}
+		case context.HIT:
+			// https://developer.fastly.com/reference/vcl/subroutines/hit/
+			states = []string{"deliver", "pass", "error", "restart"}
+		case context.MISS:
+			// https://developer.fastly.com/reference/vcl/subroutines/miss/
+			states = []string{"fetch", "deliver_stale", "pass", "error"}
+		case context.PASS:
+			// https://developer.fastly.com/reference/vcl/subroutines/pass/
+			states = []string{"pass"}
+		case context.FETCH:
+			// https://developer.fastly.com/reference/vcl/subroutines/fetch/
+			states = []string{"deliver", "deliver_stale", "hit_for_pass", "pass", "error", "restart"}
+		case context.ERROR:
+			// https://developer.fastly.com/reference/vcl/subroutines/error/
+			states = []string{"deliver", "deliver_stale", "restart"}
+		case context.DELIVER:
+			// https://developer.fastly.com/reference/vcl/subroutines/deliver/
+			states = []string{"deliver", "restart"}
+		case context.LOG:
+			// https://developer.fastly.com/reference/vcl/subroutines/log/
+			states = []string{"deliver"}
+		}
+		if first {
+			expects = append(expects, states...)
+			first = false
+			continue
+		}
+		// keep the actions which this scope allows as well
+		var common []string
+		for _, e := range expects {
+			for _, st := range states {
+				if e == st {
+					common = append(common, e)
+				}
+			}
+		}
+		expects = common
 	}
 
 	// If return statement does not have arguemnt, but Fastly requires next state in state-machine method like "vcl_recv"
